@@ -151,21 +151,25 @@ def run_schedule(codes, ops, overrides=(), wait_s=10.0):
 
 
 def explore(codes, make_ops, check, bound, max_schedules=100000, wait_s=10.0):
-    """Depth-first enumeration of schedules with at most `bound` overrides.
+    """Enumeration (breadth first in the number of overrides) of schedules with at most `bound` overrides.
 
     make_ops() -> fresh list of callables (state reset is the caller's business);
     check(results, scheduler, overrides) is called after every execution.
     Returns statistics."""
-    stack = [()]
+    # breadth first in the number of preemptions: every single-preemption schedule is run before any
+    # two-preemption one, so a cap on the number of schedules cuts the deepest level only
+    import collections
+    stack = collections.deque([()])
     seen = set()
-    stats = {'schedules': 0, 'fingerprints': set(), 'max_decisions': 0, 'failed': []}
+    stats = {'schedules': 0, 'fingerprints': set(), 'max_decisions': 0, 'failed': [], 'by_preemptions': {}}
     while stack and stats['schedules'] < max_schedules:
-        ov = stack.pop()
+        ov = stack.popleft()
         if ov in seen:
             continue
         seen.add(ov)
         results, s = run_schedule(codes, make_ops(), ov, wait_s)
         stats['schedules'] += 1
+        stats['by_preemptions'][len(ov)] = stats['by_preemptions'].get(len(ov), 0) + 1
         stats['fingerprints'].add(tuple(s.trace))
         stats['max_decisions'] = max(stats['max_decisions'], len(s.decisions))
         if s.failed:
@@ -178,4 +182,5 @@ def explore(codes, make_ops, check, bound, max_schedules=100000, wait_s=10.0):
                 for t in enabled:
                     if t != chosen:
                         stack.append(ov + ((d, t),))
+    stats['left_unexplored'] = len(stack)
     return stats
